@@ -27,9 +27,36 @@ GEMMX_REGION = """"dart.operation"({i0}, {i1}, {o}) <{{patterns = [affine_map<(d
 {ind}}}) {{tag = {t} : i32}} : ({ty}, {ty}, {ty}) -> ()"""
 
 
+# streaming region on the xDMA with a one-input kernel (rescale): element types of input / output differ per kernel
+RESCALE_ATTRS = "{input_zp = 1 : i32, output_zp = 2 : i32, multiplier = array<i32: 3>, shift = array<i32: 4>, max_int = 127 : i32, min_int = -128 : i32, double_round = false}"
+XDMA_REGION1 = """"dart.operation"({i0}, {o}) <{{patterns = [affine_map<(d0) -> (d0)>, affine_map<(d0) -> (d0)>], accelerator = "{acc}", operandSegmentSizes = array<i32: 1, 1>}}> ({{
+{ind}^bb2(%s0{t} : !dart.stream<{ti}>, %s2{t} : !dart.stream<{to}>):
+{ind}  %g{t} = "dart.generic"(%s0{t}) <{{library_call = "{acc}"}}> ({{
+{ind}  ^bb3(%p{t} : {ti}, %r{t} : {to}):
+{ind}    %kk{t} = kernel.rescale %p{t} """ + RESCALE_ATTRS.replace("{", "{{").replace("}", "}}") + """ : ({ti}) -> {to}
+{ind}    dart.yield %kk{t} : {to}
+{ind}  }}) : (!dart.stream<{ti}>) -> !dart.stream<{to}>
+{ind}  dart.yield %g{t} : !dart.stream<{to}>
+{ind}}}) {{tag = {t} : i32}} : ({tyi}, {tyo}) -> ()"""
+
+# kernels the xDMA's streamer extensions implement (kind, operand and result element types), written down independently
+XDMA_KERNELS = {("kernel.add", ("i32", "i32", "i32")), ("kernel.rescale", ("i32", "i8")), ("kernel.rescale", ("i8", "i32"))}
+
+
+def region_kernel(op):
+    """(kernel op name, element types of its operands and results) of a streaming region's first generic, or None."""
+    try:
+        g = op.body.block.first_op
+        k = g.body.block.first_op
+        return (k.name, tuple(str(t) for t in [*k.operand_types, *k.result_types]))
+    except Exception:
+        return None
+
+
 def classify(op):
     """independent classification of the ops our programs contain (the compiler's own rules are NOT consulted):
-    memref.copy and regions on the xDMA are data movement; linalg.generic and regions on other accelerators compute."""
+    memref.copy and regions on the xDMA whose kernel a streamer extension implements are data movement; linalg.generic
+    and all other regions compute."""
     n = op.name
     if n == "memref.copy":
         return "dm"
@@ -37,7 +64,11 @@ def classify(op):
         return "compute"
     if n in ("dart.operation", "dart.schedule", "dart.access_pattern", "snax_stream.streaming_region"):
         acc = op.properties.get("accelerator") or op.attributes.get("accelerator")
-        return "dm" if acc is not None and acc.data == "snax_xdma" else "compute"
+        if acc is not None and acc.data == "snax_xdma":
+            # the data mover only runs what its extensions implement; any other kernel is an accelerator operation of
+            # the compute core like the regions of every other accelerator
+            return "dm" if region_kernel(op) in XDMA_KERNELS else "compute"
+        return "compute"
     return "all"
 
 
